@@ -408,7 +408,7 @@ func runC12(c Case, st *Stats) error {
 	for k := 0; k < n; k++ {
 		partials := []int{0}
 		if fk == "write" {
-			partials = []int{0, 7, 43}
+			partials = []int{0, 7, 43, 1 << 20} // 1<<20: everything but the last byte
 		}
 		for _, p := range partials {
 			f := &FaultSpec{Step: badIdx, Kind: fk, At: k, Partial: p}
